@@ -25,6 +25,10 @@
 import CijProofs.Lemmas.FullModulus
 import CijProofs.Lemmas.GaussJordan
 import Generated.FullModulusSpec
+import CijProofs.Lemmas.TasksSource
+import CijProofs.Lemmas.ModeGammaSource
+import Generated.AdapterSpec
+import CijProofs.Lemmas.AdapterGuardSource
 namespace Cij.C05
 
 open Cij.LeastSq Cij.FullModulus
@@ -278,5 +282,39 @@ theorem c05_defaults_are_source {α : Type} [Add α] [Sub α] [Mul α] [Div α] 
       FullModulus.staticPressure strains energies strainArray vArray Generated.staticPressureDefaultOrder ∧
     Generated.fitModulusDegOffset = 1 ∧ Generated.fullModulusBodiesCanonical = true :=
   ⟨rfl, rfl, rfl, rfl⟩
+
+/-! #### ties shared with other properties
+
+The statement of this property also rests on code whose translation is owned by another property's file; the theorems are restated
+here so that this property's obligations are re-checked against those files too (a change there breaks THIS check's proof as well). -/
+
+/-- `cij/core/tasks.py` as translated on this run: a non-shear task is identified by the two strain columns the source names,
+task equality is at rounding level (`_STRAIN_RTOL ≤ 1e-9`, `atol = 0`), and `calculate()` feeds a shear task from the isothermal store -/
+theorem c05_tasks_are_source {α : Type} [Add α] [Div α] (strain : Cij.Tasks.SField α) (key : Cij.Modulus) :
+    (match Generated.makeParamCols with
+     | [c0, c1] => Cij.Tasks.create strain key =
+        if key.isShear then .shear strain key
+        else .nonshear key.calcType (Cij.Tasks.component strain (Cij.Tasks.colOf key c0)) (Cij.Tasks.component strain (Cij.Tasks.colOf key c1))
+     | _ => False) ∧
+    (0 < Generated.strainRtol.1 ∧ Generated.strainRtol.1 * 1000000000 ≤ Generated.strainRtol.2) ∧
+    Generated.tasksWiringCanonical = true :=
+  ⟨Cij.Tasks.create_is_source strain key, Cij.Tasks.strain_rtol_tight, rfl⟩
+
+/-- the glue of `cij/core/mode_gamma.py` this property's statement rests on (which member of the returned triple is γ, which
+V∂γ/∂V, the signs): every `interpolate_mode_*` function returns `(exp s, −s′, −s″)` as translated on this run -/
+theorem c05_mode_glue_is_source : ∀ e ∈ Generated.modeReturnPattern, e.2 = Cij.Interp.canonicalPattern :=
+  Cij.Interp.return_pattern_is_source
+
+/-- `qha_adapter.py` as translated on this run: the (T,V) interface hands over qha's (T,V) fields (`heat_capacity = cv_tv_au`,
+`pressures = p_tv_au`), the (T,P) interface `volumes = v_tp_bohr3`, `p_array = desired_pressures`; `read_input` passes the file's
+fields unchanged; the requested grid is accepted by exactly the guard the model implements -/
+theorem c05_qha_adapter_is_source {α : Type} [OfNat α 0] [LT α] [DecidableLT α] (pTvGpa : List (List α)) (desiredGpa : List α) :
+    Generated.qhaVolumeBaseAttrs.lookup "heat_capacity" = some "cv_tv_au" ∧
+    Generated.qhaVolumeBaseAttrs.lookup "pressures" = some "p_tv_au" ∧
+    Generated.qhaPressureBaseAttrs.lookup "volumes" = some "v_tp_bohr3" ∧
+    Generated.qhaPressureBaseAttrs.lookup "p_array" = some "desired_pressures" ∧
+    Generated.qhaReadInputCanonical = true ∧
+    Cij.AdapterGuardSource.evalGuard Generated.pressureGuard pTvGpa desiredGpa = some (Cij.V2P.desiredPressureStatus pTvGpa desiredGpa) :=
+  ⟨by decide, by decide, by decide, by decide, rfl, Cij.AdapterGuardSource.desiredPressureStatus_is_source pTvGpa desiredGpa⟩
 
 end Cij.C05
